@@ -30,7 +30,7 @@ ASSUMPTIONS = [
     'pending deletions applied',
 ]
 WEIGHTS = {'create': 6, 'add': 5, 'remove': 6, 'delete': 7, 'delete_now': 3, 'process': 6, 'clear': 1,
-           'toggle': 1, 'bad_delete': 1, 'arm': 2, 'revive': 1}
+           'toggle': 1, 'bad_delete': 1, 'arm': 4, 'revive': 1}
 FINDINGS = {}
 
 
